@@ -250,6 +250,18 @@ theorem noOrphan_step (hfix : ∀ n, n ≥ 2 → dropSinkRemovesEntry n = false)
         · split
           · exact h
           · exact noOrphan_put h _ _ _ (by simpa using lk hl)
+  | sendResume k p =>
+    simp only [step, doSendResume]
+    split
+    · exact h
+    · rename_i hl
+      split
+      · exact h
+      · split
+        · exact h
+        · split
+          · exact h
+          · exact noOrphan_put h _ _ _ (by simpa using lk hl)
   | cloneSink k =>
     simp only [step, doClone]
     split
